@@ -108,6 +108,7 @@ type Violation struct {
 	Entry   string
 	Trace   []string
 	Sched   []int
+	Sel     [][2]int
 }
 
 // Finding is a witness of a recorded class (verifFinding).
@@ -117,6 +118,7 @@ type Finding struct {
 	Values map[string]any
 	Entry  string
 	Sched  []int
+	Sel    [][2]int
 }
 
 // PathResult is what one executed path reports.
@@ -586,6 +588,7 @@ func (in *Interp) makeViolation(id, detail, extra string) Violation {
 	v.Values = vals
 	v.Script = in.solver.Script(extra)
 	v.Sched = append([]int(nil), in.spTrace...)
+	v.Sel = append([][2]int(nil), in.selTrace...)
 	for _, e := range in.events {
 		v.Trace = append(v.Trace, fmtEvent(e))
 	}
@@ -649,7 +652,7 @@ func (in *Interp) reach(id string) {
 
 func (in *Interp) finding(id string) {
 	_, vals := in.modelValues("")
-	in.result.Findings = append(in.result.Findings, Finding{ID: id, Pos: in.pos(), Values: vals, Entry: in.sched.gs[0].name, Sched: append([]int(nil), in.spTrace...)})
+	in.result.Findings = append(in.result.Findings, Finding{ID: id, Pos: in.pos(), Values: vals, Entry: in.sched.gs[0].name, Sched: append([]int(nil), in.spTrace...), Sel: append([][2]int(nil), in.selTrace...)})
 	panic(pathEnd{"ok", "finding " + id})
 }
 
